@@ -27,8 +27,32 @@ CONFIGS = [("synchronous", None), ("threads", 1), ("threads", 2), ("threads", 4)
 
 
 # ------------------------------------------------------------------ generator
-def gen_case(rng, mode=None, stochastic=None, custom_kind=None, adc=None, clock=None):
-    case = c05.gen_case(rng, mode=mode, with_dask=True,
+APD_KEYS = ["detector.characteristics.pixel_reset_voltage", "detector.characteristics.avalanche_gain"]
+
+
+def gen_apd_case(rng, mode, alphabetical):
+    """APD detector, a sweep over two INTERDEPENDENT settings (each setter recomputes the other from the bias), declared
+    in alphabetical or in non-alphabetical key order: both paths must apply them in the declared order"""
+    import pyx
+
+    case = c05.gen_case(rng, mode=mode, with_dask=True, flavour="plain", max_runs=4, off_model=False)
+    case["detector_kind"], case["construction"] = "APD", "python"
+    case["params"] = [p for p in case["params"] if p["key"].startswith("pipeline.")][:1]
+    vals = {APD_KEYS[0]: rng.sample([4.0, 6.0, 5.5, 4.5], 2), APD_KEYS[1]: rng.sample([3.0, 2.5, 4.0, 1.5], 2)}
+    order = sorted(APD_KEYS) if alphabetical else sorted(APD_KEYS, reverse=True)
+    for k in order:
+        case["params"].insert(rng.randrange(len(case["params"]) + 1) if False else len(case["params"]),
+                              {"key": k, "decl": vals[k], "expect": vals[k], "enabled": True, "multi": False})
+    case["fields"] = ["characteristics.avalanche_gain", "characteristics.common_voltage", "characteristics.pixel_reset_voltage"]
+    ch = pyx.make_detector("APD", 3, 4).characteristics
+    case["extra_defaults"] = {"detector.characteristics.avalanche_gain": float(ch.avalanche_gain),
+                              "detector.characteristics.pixel_reset_voltage": float(ch.pixel_reset_voltage)}
+    case.update({"stochastic": None, "seed": 1, "delay_ms": rng.choice([0.0, 1.0]), "no_model": True})
+    return case
+
+
+def gen_case(rng, mode=None, stochastic=None, custom_kind=None, adc=None, clock=None, off_model=None):
+    case = c05.gen_case(rng, mode=mode, with_dask=True, off_model=off_model,
                         flavour=rng.choice(["plain", "fine", "vectors", "two_models_same_arg", "same_model_two_groups",
                                             "field_vs_arg"]), max_runs=12)
     if case["mode"] == "custom":
@@ -86,7 +110,7 @@ def extra_models(case):
 # ------------------------------------------------------------------ implementation side
 def run_path(case, parallel, scheduler="synchronous", workers=None, outputs=False):
     extra, extra_slots = extra_models(case)
-    outputs = outputs and not case.get("clock")  # several readouts: the files stream uses single-readout cases
+    outputs = outputs and not case.get("clock") and not case.get("no_model")  # (files stream: single readout, modelled fields)
     out_dir = tempfile.mkdtemp(prefix="verif-c07-out-") if outputs else None
     try:
         res = c05.run_impl(case, scheduler=scheduler, num_workers=workers, with_dask=parallel,
@@ -234,7 +258,9 @@ def check_deprecated_files(ck, case, workers):
         try:
             import warnings
 
-            with warnings.catch_warnings(), dask.config.set(scheduler="threads", num_workers=workers):
+            # workers=None: the entry point's own default scheduler (dask.bag: a process pool — the processor is pickled)
+            cfg = {"scheduler": "threads", "num_workers": workers} if workers else {}
+            with warnings.catch_warnings(), dask.config.set(**cfg):
                 warnings.simplefilter("ignore")
                 pyxel.observation_mode(observation=obs, detector=det, pipeline=pipe)
         except Exception as e:  # noqa: BLE001
@@ -449,9 +475,16 @@ def body(ck: common.Check):
         cases.append(("directed", gen_case(rng, mode=mode, stochastic=False, adc=True, clock=False)))
     for mode in ("product", "sequential"):
         cases.append(("directed", gen_case(rng, mode=mode, adc=False, clock=True)))
+    # APD: two interdependent detector settings, declared in both key orders (product and sequential mode)
+    for mode, alpha in (("product", False), ("sequential", False), ("product", True)):
+        cases.append(("directed", gen_apd_case(rng, mode, alpha)))
+    # a switched-off model that would change the data, run under the process pool (the processor is pickled)
+    c = gen_case(rng, mode="product", stochastic=False, adc=False, clock=False, off_model=True)
+    c["force_processes"] = True
+    cases.append(("directed", c))
     for kind in ("w1", "shift", "both"):
         cases.append(("directed", gen_case(rng, mode="custom", stochastic=False, custom_kind=kind, clock=False)))
-    for _ in range(7 if quick else 150):
+    for _ in range(5 if quick else 150):
         cases.append(("random", gen_case(rng)))
     answers = LeanDriver("C07").batch([lean_request(c) for _, c in cases])
     second = []  # (case, observed completion order) for the assembly model
@@ -460,11 +493,11 @@ def body(ck: common.Check):
         if "bad" in ans:
             raise common.InfraError(f"driver rejected request: {ans}")
         ref = run_path(case, parallel=False)
-        tasks = model_tasks(case, ans)
+        tasks = {"error": "not modelled"} if case.get("no_model") else model_tasks(case, ans)
         # every case: synchronous + two thread pools (rotating) ; processes on a few
         cfgs = [CONFIGS[0], CONFIGS[1 + n % 4], CONFIGS[1 + (n + 2) % 4]]
-        if (n % (6 if quick else 10)) == 0:
-            cfgs.append(CONFIGS[5])
+        if case.get("force_processes") or (n % (14 if quick else 10)) == 0:
+            cfgs = cfgs[:2] + [CONFIGS[5]] if case.get("force_processes") else cfgs + [CONFIGS[5]]
             n_proc += 1
         if not quick:
             cfgs = CONFIGS[:5] + cfgs[3:]
@@ -479,6 +512,8 @@ def body(ck: common.Check):
             if why is not None:
                 ck.violation("C07:" + why[0], why[1], {"case": case, "cfg": list(cfg), "ref": ref, "par": par})
             # model: file k holds the data of task k of the parameter array
+            if case.get("no_model"):
+                continue
             if "error" not in par and "error" not in tasks and "files" in par:
                 es = 1 if case.get("stochastic") else 0
                 files = {k: (v[:-es] if es else v) for k, v in par.get("files", {}).items()}
@@ -522,13 +557,14 @@ def body(ck: common.Check):
     ndep = 0
     for mode in ["product", "sequential", "product"] + [rng.choice(["product", "sequential"]) for _ in range(0 if quick else 30)]:
         for _ in range(40):
-            c = c05.gen_case(rng, mode=mode, with_dask=True, flavour=rng.choice(["plain", "fine"]), max_runs=10)
+            c = c05.gen_case(rng, mode=mode, with_dask=True, flavour=rng.choice(["plain", "fine"]), max_runs=10,
+                             off_model=(ndep % 3 == 1))
             en = c05._unique_enabled(c)  # noqa: SLF001
             # the deprecated path assembles its result with combine_by_coords: scalar parameters with >= 2 values each
             if len(c05.spec_runs(c)) >= 3 and all(not p.get("multi") and len(p["expect"]) >= 2 for p in en):
                 break
         c["delay_ms"] = rng.choice([1.0, 2.0, 3.0])
-        check_deprecated_files(ck, c, workers=[4, 2, 8][ndep % 3])
+        check_deprecated_files(ck, c, workers=[4, None, 8][ndep % 3])
         ndep += 1
     # calibration clause, directed: the FIRST-created island is made to finish its creation LAST (its initial candidates —
     # read from a run with sequential island creation — are evaluated slowly), three or four unconnected islands, fixed
